@@ -742,6 +742,17 @@ pub fn weight_attack(
             hits.push(name);
         }
     }
+    // derivation-agnostic: weights that lie in a low-dimensional family cancel without being known. An arithmetic progression w_i = a + i*b
+    // (one random base, "next weight = previous + base") is annihilated by defects in proportion 1 : -2 : 1 on three consecutive members.
+    if k >= 3 {
+        let mut forged: Vec<Vec<u8>> = proofs.to_vec();
+        tweak(&mut forged[0], Scalar::ONE);
+        tweak(&mut forged[1], -Scalar::from(2u8));
+        tweak(&mut forged[2], Scalar::ONE);
+        if verify(&forged).iter().any(|r| *r) {
+            hits.push("three members with defects in proportion 1 : -2 : 1 are accepted: the weights form an arithmetic progression (no knowledge of the weights needed)".to_string());
+        }
+    }
     // a derivation that treats the LARGEST member as the unit of the batch: weight 1, not bound into the weight transcript
     {
         let size = |i: usize| statements[i].commitments.len() * statements[i].generators.bit_length();
